@@ -19,7 +19,19 @@ PREAMBLE = ("From SV Require Import C09.Tracker C09.RenderT.\n"
             "Definition q (n : Z) (d : positive) : Q := Qmake n d.\n")
 
 FEATURES = [("keypoints", "oks"), ("centroids", "euclidean_dist"), ("bboxes", "iou")]
+# further feature/score pairs whose shapes fit (a pair like keypoints+iou fails inside the scoring function: outside)
+FEATURES_X = FEATURES + [("keypoints", "euclidean_dist"), ("bboxes", "euclidean_dist"), ("centroids", "cosine_sim"),
+                         ("bboxes", "cosine_sim")]
 SEL_I, SEL_II, SEL_III = "match_only_index_zero", "lq_unmatched_detection", "stale_track_no_candidate"
+SEL_CAP, SEL_IV = "max_tracks_exceeded", "no_pair_all_scores_nan"
+XPREAMBLE = ("From SV Require Import C09.Tracker C09.TrackerX C09.RenderT.\n"
+             "From Coq Require Import List ZArith QArith.\nImport ListNotations.\n"
+             "Close Scope Q_scope. Open Scope nat_scope.\n"
+             "Definition q (n : Z) (d : positive) : Q := Qmake n d.\n")
+VALID = {"features": ("keypoints", "centroids", "bboxes"),
+         "scoring": ("oks", "iou", "cosine_sim", "euclidean_dist"),
+         "reduction": ("mean", "max"), "matching": ("hungarian", "greedy")}
+IMG = 160                                  # side of the synthetic frames given to FlowShiftTracker
 
 
 # ---------------------------------------------------------------------------
@@ -51,8 +63,39 @@ def make_inst(d):
     """d = {uid, x, y, score, animal} with x, y Fractions/ints (dyadic)."""
     x, y = float(Fraction(d["x"])), float(Fraction(d["y"]))
     k = d.get("size", 1)
-    return Inst([[x + k * dx, y + k * dy] for dx, dy in SHAPES[d.get("shape", "tri")]], float(Fraction(d["score"])),
-                d["uid"], d.get("animal"))
+    pts = [[x + k * dx, y + k * dy] for dx, dy in SHAPES[d.get("shape", "tri")]]
+    for j in d.get("nan", ()):             # missing keypoints (NaN), by index
+        if j < len(pts):
+            pts[j] = [float("nan"), float("nan")]
+    return Inst(pts, float(Fraction(d["score"])), d["uid"], d.get("animal"))
+
+
+def red_name(cfg):
+    return cfg.get("red_name") or ("max" if cfg["red_max"] else "mean")
+
+
+def match_name(cfg):
+    return cfg.get("match_name") or ("greedy" if cfg["greedy"] else "hungarian")
+
+
+def names_ok(cfg):
+    return (cfg["features"] in VALID["features"], cfg["scoring"] in VALID["scoring"],
+            red_name(cfg) in VALID["reduction"], match_name(cfg) in VALID["matching"])
+
+
+def frame_image(fr, blank=False):
+    """Synthetic uint8 frame for the optical-flow tracker: a Gaussian blob at every (finite, in-frame) keypoint
+    on a faint fixed texture; `blank` = a uniform frame (Lucas-Kanade then finds no point)."""
+    np = impl()["np"]
+    if blank:
+        return np.zeros((IMG, IMG), dtype=np.uint8)
+    yy, xx = np.mgrid[0:IMG, 0:IMG]
+    im = (8 + 6 * np.sin(xx / 5.0) * np.cos(yy / 7.0))
+    for d in fr:
+        for (x, y) in make_inst(d).pts:
+            if x == x and y == y and -8 <= x < IMG + 8 and -8 <= y < IMG + 8:
+                im = np.maximum(im, 255 * np.exp(-((xx - x) ** 2 + (yy - y) ** 2) / 18.0))
+    return im.astype(np.uint8)
 
 
 # ---------------------------------------------------------------------------
@@ -77,7 +120,37 @@ def impl():
                 self.rec["scores"] = np.array(s, dtype=float).copy()
                 return s
 
-        _impl.update(np=np, Tracker=Tracker, RecTracker=RecTracker)
+        from sleap_nn.tracking.tracker import FlowShiftTracker
+        from loguru import logger
+        logger.disable("sleap_nn.tracking")      # the modules log every deliberate exception at ERROR level
+
+        def rec_candidates(self, d):
+            cur = self.candidate.current_tracks
+            self.rec["cands"] = [[x.src_predicted_instance.uid for x in d[t]] if t in d else [] for t in cur]
+
+        class RecTrackerC(RecTracker):
+            def update_candidates(self, candidates_list, image):
+                d = super().update_candidates(candidates_list, image)
+                rec_candidates(self, d)
+                return d
+
+        class RecFlow(FlowShiftTracker):
+            def update_candidates(self, candidates_list, image):
+                d = FlowShiftTracker.update_candidates(self, candidates_list, image)
+                rec_candidates(self, d)
+                return d
+
+        def _gs(self, current_instances, candidates_feature_dict):
+            try:
+                s = FlowShiftTracker.get_scores(self, current_instances, candidates_feature_dict)
+            except Exception as e:
+                self.rec["scores_error"] = type(e).__name__
+                raise
+            self.rec["scores"] = np.array(s, dtype=float).copy()
+            return s
+        RecFlow.get_scores = _gs
+
+        _impl.update(np=np, Tracker=Tracker, RecTracker=RecTrackerC, RecFlow=RecFlow, FlowShiftTracker=FlowShiftTracker)
     return _impl
 
 
@@ -87,8 +160,13 @@ def new_tracker(cfg):
     t = im["RecTracker"].from_config(
         window_size=cfg["window"], instance_score_threshold=float(Fraction(cfg["threshold"])),
         candidates_method="local_queues" if cfg["lq"] else "fixed_window",
-        features=feat, scoring_method=scoring, scoring_reduction="max" if cfg["red_max"] else "mean",
-        track_matching_method="greedy" if cfg["greedy"] else "hungarian")
+        features=feat, scoring_method=scoring, scoring_reduction=red_name(cfg),
+        track_matching_method=match_name(cfg), max_tracks=cfg.get("max_tracks"), use_flow=bool(cfg.get("flow")))
+    if cfg.get("flow"):
+        # from_config returns a FlowShiftTracker proper; re-wrap its fields in the recording subclass
+        import attrs
+        assert type(t) is im["FlowShiftTracker"]
+        t = im["RecFlow"](**{a.name.lstrip("_"): getattr(t, a.name) for a in attrs.fields(type(t)) if a.init})
     t.rec = {}
     orig = dict(t._track_matching_methods)
 
@@ -133,13 +211,15 @@ def run_impl(cfg, hist):
         rec = {"n_tracks_before": len(t.candidate.current_tracks), "stale": stale_tracks(t, cfg), "insts": insts}
         with warnings.catch_warnings():
             warnings.simplefilter("ignore")
+            image = frame_image(fr, blank=fi in cfg.get("blank", ())) if cfg.get("flow") else None
             try:
-                res = t.track(insts, fi)
+                res = t.track(insts, fi, image)
                 rec["out"] = res
             except Exception as e:
                 rec["raises"] = type(e).__name__
                 rec["msg"] = str(e)[:120]
         rec.update(t.rec)
+        rec["n_tracks_after"] = len(t.candidate.current_tracks)
         recs.append(rec)
         if "raises" in rec:
             break
@@ -187,6 +267,18 @@ def cconfig(cfg, fixes) -> str:
     return "(mkConfig %s %s %d %s %s %s %s)" % (
         core.cbool(cfg["lq"]), core.cbool(cfg["greedy"]), cfg["window"], core.cbool(cfg["red_max"]),
         core.cbool(fi), core.cbool(fixes["ii"]), core.cbool(fixes["iii_scores"]))
+
+
+def cxconfig(cfg, fixes) -> str:
+    mt = cfg.get("max_tracks")
+    ok = names_ok(cfg)
+    return "(mkX %s %s %s %s %s %s %s %s)" % (
+        cconfig(cfg, fixes), "None" if mt is None else f"(Some {int(mt)})", core.cbool(fixes.get("cap", False)),
+        core.cbool(fixes.get("iv", False)), *[core.cbool(b) for b in ok])
+
+
+def xcase_term(cfg, hist, recs, fixes) -> str:
+    return f"(xrun_case {cxconfig(cfg, fixes)} {frames_term(cfg, hist, recs)})"
 
 
 def cframe(fr, rec, threshold) -> str:
@@ -278,6 +370,15 @@ WITNESS = {
 
 
 def witness_case(name):
+    if name == "max_tracks_exceeded":
+        # local queues, max_tracks = 1, three animals in the first frame
+        return dict(BASE, lq=True, max_tracks=1), [[D(10, 0, 0), D(11, 100, 0), D(12, 0, 100)]]
+    if name in ("flow_all_nan_fw", "flow_all_nan_lq"):
+        # optical-flow tracker on centroids, window 1: the frames 1, 2 are uniform, Lucas-Kanade finds none of the
+        # candidate's points in frame 2, every score is NaN, the Hungarian matcher returns no pair
+        return (dict(BASE, lq=name.endswith("lq"), window=1, features="centroids", scoring="euclidean_dist", flow=True,
+                     blank=[1, 2]),
+                [[D(10, 40, 40), D(11, 100, 90)], [D(20, 42, 41), D(21, 99, 92)], [D(30, 44, 42), D(31, 98, 94)]])
     if name == "one_animal_fw":
         return dict(BASE), WITNESS["one_animal"]
     if name == "one_animal_lq":
@@ -322,6 +423,12 @@ def detect_fixes():
     res["iii_hungarian"] = not any("raises" in r for r in recs)
     cfg, hist, recs = go("stale_track_max")
     res["iii_scores"] = not any("raises" in r for r in recs)
+    cfg, hist, recs = go("max_tracks_exceeded")
+    res["cap"] = not any("raises" in r for r in recs)
+    cfg, hist, recs = go("flow_all_nan_fw")
+    # repaired = the third frame (all scores NaN) still returns both detections with tracks
+    res["iv"] = len(recs) == 3 and all(frame_oracle(fr, r, 0, cfg, {"cap": res["cap"]}) is None for fr, r in zip(hist, recs))
+    res["iv_witness_all_nan"] = bool(len(recs) == 3 and "scores" in recs[2] and impl()["np"].isnan(recs[2]["scores"]).all())
     return res, details
 
 
@@ -332,6 +439,17 @@ def selector_of(cfg, fr, rec, fixes):
     """Name of the known-finding selector a FAILING frame falls under, or None.  A selector is only
     offered while the code under test still shows that defect on its witness history."""
     p = rec.get("answer")
+    if (rec.get("raises") == "Exception" and "Exceeding max tracks" in rec.get("msg", "") and cfg["lq"]
+            and cfg.get("max_tracks") is not None and not fixes.get("cap", False)):
+        # the call needs more new tracks than max_tracks leaves room for (ids 0..max_tracks are handed out)
+        thr = Fraction(cfg["threshold"])
+        matched = {r for r, _ in p} if p else set()
+        need = sum(1 for i, d in enumerate(fr) if Fraction(d["score"]) > thr and i not in matched)
+        if need > 0 and rec["n_tracks_before"] + need > cfg["max_tracks"] + 1:
+            return SEL_CAP
+    if ("raises" not in rec and p == [] and not fixes.get("iv", False) and "scores" in rec
+            and rec["scores"].size > 0 and impl()["np"].isnan(rec["scores"]).all()):
+        return SEL_IV
     if rec.get("raises") == "TypeError" and cfg["lq"] and not fixes["ii"] and p is not None:
         if set(range(len(fr))) - {r for r, _ in p}:
             return SEL_II
@@ -347,8 +465,12 @@ def selector_of(cfg, fr, rec, fixes):
     return None
 
 
-def frame_oracle(fr, rec, threshold):
-    """C09's statement on one frame of the implementation's output; None or a reason."""
+def frame_oracle(fr, rec, threshold, cfg=None, fixes=None):
+    """C09's statement on one frame of the implementation's output; None or a reason.
+    With the max_tracks repair in the code under test (fixes['cap']) a detection may be returned WITHOUT a track when
+    local queues are used and max_tracks tracks already exist after the call (decision recorded in notes/C09.md)."""
+    cap_full = bool(cfg and fixes and fixes.get("cap") and cfg.get("lq") and cfg.get("max_tracks") is not None
+                    and rec.get("n_tracks_after", 0) >= cfg["max_tracks"])
     if "raises" in rec:
         return f"raises {rec['raises']}: {rec.get('msg', '')}"
     thr = Fraction(threshold)
@@ -368,8 +490,11 @@ def frame_oracle(fr, rec, threshold):
         if Fraction(d["score"]) > thr:
             if d["uid"] not in by_uid:
                 return f"detection {d['uid']} (score above threshold) was not returned"
-            if by_uid[d["uid"]].track is None:
+            if by_uid[d["uid"]].track is None and not cap_full:
                 return f"detection {d['uid']} (score above threshold) was returned without a track"
+    if cfg and fixes and fixes.get("cap") and cfg.get("lq") and cfg.get("max_tracks") is not None:
+        if rec.get("n_tracks_after", 0) > cfg["max_tracks"]:
+            return f"{rec['n_tracks_after']} tracks exist, max_tracks = {cfg['max_tracks']}"
     return None
 
 
